@@ -440,10 +440,12 @@ var c33FixtureWant = []string{
 	"C33-G6:compileRegex/flag string <- unvalidated",
 	"C33-G6:validate/default arm",
 	"C33-G6:validate/lets through 'n'",
+	"C33-G7:NoRecompile/compiles under cacheRegex and !cacheRegex",
 	"C33-G7:StalePattern.Eval/cachedVal under cacheVal",
 	"C33-G7:StalePattern.compile/re under !cacheRegex",
 	"C33-G7:StalePattern.compile/re under cacheRegex",
 	"C33-G7:StaleVal.Eval/cachedVal under cacheVal",
+	"C33-S1:fn.Lowered.Eval/SetMatchString.matchStr",
 	"C33-S1:fn.NoUnwrap.Eval/SetMatchString.matchStr",
 	"C33-S1:fn.OwnCompiler.compile/SetRegexString.regexStr",
 }
